@@ -420,8 +420,13 @@ def g_route_op(r, options, generate):
     keys = list(options)
     file_keys = [k for k in keys if r.random() < 0.5]
     overridden = {}
-    if file_keys and r.random() < 0.4:
-        k = r.choice(file_keys)
+    # a flag may override a value of the project file -- but not for the options that take part in a conflict rule
+    # (eq/order, generic_collections/frozen): a project file that is itself conflicting is legitimately resolved when it
+    # is READ (with a warning), before the flag is applied, so "file says order=true eq=false, flag says --no-order" ends
+    # with eq=true by design; that is not the same option set as {eq=false, order=false} (false alarm of round 4)
+    overridable = [k for k in file_keys if k not in ("format.eq", "format.order", "format.frozen", "generic_collections")]
+    if overridable and r.random() < 0.4:
+        k = r.choice(overridable)
         v = options[k]
         if isinstance(v, bool):
             overridden[k] = not v
